@@ -469,3 +469,383 @@ theorem fromVolume_segs (E : Env) (path : Str) (u svc : SUnit) (n : Str) (h : fr
   exact (HasExec.of_addRawExec hexec).oneShot true (by decide) (by decide) (by decide)
 
 end Cv
+
+namespace Cv
+open MM
+
+/-! ### Mount= -/
+def mountTokArgStep (E : Env) (unitPath : Str) (acc : List Str) (t : Str) : R (List Str) :=
+  if startsWith t (s "source=") || startsWith t (s "src=") then
+    match splitOnce '=' t with
+    | some (_, v) =>
+      match storageSourceName E unitPath v true with
+      | .error e => .error e
+      | .ok r => .ok (acc ++ [s "source=" ++ r])
+    | none => .ok acc
+  else .ok (acc ++ [t])
+
+theorem mountTokStep_fst (E : Env) (unitPath : Str) (a : List Str) (sv : SUnit) (t : Str) :
+    fstR (mountTokStep E unitPath (a, sv) t) = mountTokArgStep E unitPath a t := by
+  unfold mountTokStep mountTokArgStep
+  split
+  · cases splitOnce '=' t with
+    | none => rfl
+    | some p =>
+      obtain ⟨p1, v⟩ := p
+      simp only
+      have h := handleStorageSource_fst E unitPath sv v true
+      cases hr : handleStorageSource E unitPath sv v true with
+      | error e => rw [hr] at h; simp only [fstR] at h; rw [← h]; rfl
+      | ok r => rw [hr] at h; simp only [fstR] at h; rw [← h]; rfl
+  · rfl
+
+def resolveMountArg (E : Env) (unitPath : Str) (m : Str) : Option (R Str) :=
+  match findMountType m with
+  | none => none
+  | some (.error e) => some (.error e)
+  | some (.ok (ty, toks)) =>
+    if !(ty == s "volume" || ty == s "bind" || ty == s "glob" || ty == s "image") then some (.ok m)
+    else some (match toks.foldlM (mountTokArgStep E unitPath) [s "type=" ++ ty] with
+      | .error e => .error e
+      | .ok r => .ok (commaJoin r))
+
+def mountsArgStep (E : Env) (unitPath : Str) (acc : List Str) (m : Str) : R (List Str) :=
+  match resolveMountArg E unitPath m with
+  | some (.ok r) => .ok (acc ++ [s "--mount", r])
+  | some (.error e) => .error e
+  | none => .error .badValue
+
+theorem mountsStep_fst (E : Env) (unitPath : Str) (a : List Str) (sv : SUnit) (m : Str) :
+    fstR (mountsStep E unitPath (a, sv) m) = mountsArgStep E unitPath a m := by
+  unfold mountsStep mountsArgStep resolveMount resolveMountArg
+  cases findMountType m with
+  | none => rfl
+  | some r =>
+    cases r with
+    | error e => rfl
+    | ok p =>
+      obtain ⟨ty, toks⟩ := p
+      simp only
+      by_cases hty : (!(ty == s "volume" || ty == s "bind" || ty == s "glob" || ty == s "image")) = true
+      · simp only [hty, if_true]; rfl
+      · simp only [hty, if_false]
+        have h := foldlM_fst (mountTokStep E unitPath) (mountTokArgStep E unitPath) (mountTokStep_fst E unitPath) toks [s "type=" ++ ty] sv
+        cases hr : List.foldlM (mountTokStep E unitPath) ([s "type=" ++ ty], sv) toks with
+        | error e => rw [hr] at h; simp only [fstR] at h; rw [← h]; rfl
+        | ok r => rw [hr] at h; simp only [fstR] at h; rw [← h]; rfl
+
+/-- the `--mount` arguments: a function of the name table, the unit's path and the words of its `Mount=` values -/
+def mountArgs (E : Env) (unitPath : Str) (u : SUnit) (sec : Str) : R (List Str) :=
+  (lookupAllArgs u sec (s "Mount")).foldlM (mountsArgStep E unitPath) []
+
+theorem mounts_args (E : Env) (unitPath : Str) (u : SUnit) (sec : Str) (svc : SUnit) (r : List Str × SUnit)
+    (h : (lookupAllArgs u sec (s "Mount")).foldlM (mountsStep E unitPath) ([], svc) = .ok r) : mountArgs E unitPath u sec = .ok r.1 := by
+  unfold mountArgs
+  rw [← foldlM_fst (mountsStep E unitPath) (mountsArgStep E unitPath) (mountsStep_fst E unitPath) _ [] svc]
+  exact fstR_ok h
+
+def segMounts (E : Env) (path sec : Str) : Seg := ⟨[s "Mount"], fun u => blockOf (mountArgs E path u sec)⟩
+theorem segMounts_local (E : Env) (path sec : Str) : (segMounts E path sec).Local sec := by
+  intro u u' h
+  simp only [segMounts, mountArgs]
+  rw [lookupAllArgs_congr (h _ (by simp [segMounts]))]
+
+/-! ### Pod= -/
+def podArgsOf (E : Env) (u : SUnit) (sec : Str) : R (List Str) :=
+  match lookup u sec (s "Pod") with
+  | none => .ok []
+  | some pod =>
+    if pod.isEmpty then .ok []
+    else if !endsWith pod (s ".pod") then .error (.invalidPod pod)
+    else match E.info pod with
+      | none => .error (.podNotFound pod)
+      | some i => .ok [s "--pod-id-file", s "%t/" ++ i.serviceName ++ s ".pod-id"]
+
+theorem handlePod_args (E : Env) (u : SUnit) (sec : Str) (svc : SUnit) (own : Str) (r : List Str × SUnit × Option (Str × Str))
+    (h : handlePod E u sec svc own = .ok r) : podArgsOf E u sec = .ok r.1 := by
+  unfold handlePod at h
+  unfold podArgsOf
+  cases hp : lookup u sec (s "Pod") with
+  | none => rw [hp] at h; simp only [Except.ok.injEq] at h; rw [← h]
+  | some pod =>
+    rw [hp] at h
+    simp only at h ⊢
+    split at h
+    · simp only [Except.ok.injEq] at h; rw [← h]; simp [*]
+    · rename_i h1
+      split at h
+      · simp at h
+      · rename_i h2
+        simp only [h1, h2, if_false, Bool.false_eq_true]
+        cases hi : E.info pod with
+        | none => rw [hi] at h; simp at h
+        | some i => rw [hi] at h; simp only [Except.ok.injEq] at h; rw [← h]
+
+def segPod (E : Env) (sec : Str) : Seg := ⟨[s "Pod"], fun u => blockOf (podArgsOf E u sec)⟩
+theorem segPod_local (E : Env) (sec : Str) : (segPod E sec).Local sec := by
+  intro u u' h
+  simp only [segPod, podArgsOf]
+  rw [lookup_congr (h _ (by simp [segPod]))]
+
+end Cv
+
+namespace Cv
+open MM
+
+/-! ### .container -/
+def segBoolOn (sec : Str) (key : String) (args : List Str) : Seg :=
+  ⟨[s key], fun u => if (lookupBool u sec (s key)).getD false then args else []⟩
+theorem segBoolOn_local (sec : Str) (key : String) (args : List Str) : (segBoolOn sec key args).Local sec := by
+  intro u u' h; simp only [segBoolOn]; rw [lookupBool_congr (h (s key) (by simp [segBoolOn]))]
+
+def segHealth (sec : Str) (r : Str × Str) : Seg :=
+  ⟨[r.1], fun u => match lookup u sec r.1 with
+    | some v => if v.isEmpty then [] else [s "--health-" ++ r.2, v]
+    | none => []⟩
+theorem segHealth_local (sec : Str) (r : Str × Str) : (segHealth sec r).Local sec := by
+  intro u u' h; simp only [segHealth]; rw [lookup_congr (h r.1 (by simp [segHealth]))]
+theorem cmdOf_health (sec : Str) (u : SUnit) : cmdOf (Gen.tbl_handle_health_key_arg_map.map (segHealth sec)) u = healthArgs u sec := by
+  simp [cmdOf, healthArgs, List.flatMap_map, segHealth]
+  rfl
+
+/-- the `--expose` options -/
+def exposeArgs (u : SUnit) (sec : Str) : R (List Str) :=
+  (lookupAll u sec (s "ExposeHostPort")).foldlM (fun (acc : List Str) p =>
+    let p := trim p
+    if Port.isPortRange p then pure (acc ++ [s "--expose", p]) else throw (Err.invalidPort p)) []
+
+/-- the name of the image as podman knows it: the value of `Image=`, or what the .image / .build unit it names creates -/
+def imageNameOf (E : Env) (u : SUnit) (sec : Str) : Str :=
+  let img := (lookup u sec (s "Image")).getD []
+  if img.isEmpty then img else blockName (imageSourceName E img)
+where blockName (r : R Str) : Str := match r with | .ok n => n | .error _ => []
+
+def notifyBlock (svcType : Option Str) (sec : Str) (u : SUnit) : List Str :=
+  match svcType with
+  | some t => if t == s "oneshot" then [] else [sdnotifyArg u sec, s "-d"]
+  | none => [sdnotifyArg u sec, s "-d"]
+
+def execBlock (sec : Str) (u : SUnit) : List Str :=
+  match lookupLastValue u sec (s "Exec") with | some raw => splitArgs raw | none => []
+
+def containerSegs (E : Env) (path : Str) (svcType : Option Str) : List Seg :=
+  let sec := s "Container"
+  [segConst [E.podman]]
+    ++ Gen.tbl_get_base_podman_command_inline_lookup_and_add_all_strings.map (segAll sec)
+    ++ [segArgs sec "GlobalArgs", segConst [s "run"],
+        segMulti [s "ContainerName"] (fun u => [s "--name", containerName (fileName path) u]),
+        segConst [s "--cidfile=%t/%N.cid", s "--replace", s "--rm"],
+        segMulti [s "LogDriver"] (fun u => logDriver u sec), segMulti [s "LogOpt"] (fun u => logOpt u sec),
+        segLast sec "CgroupsMode" (fun o => [s "--cgroups", match o with | some c => if c.isEmpty then s "split" else c | none => s "split"])]
+    ++ Gen.tbl_from_container_unit_string_keys.map (segString sec)
+    ++ Gen.tbl_from_container_unit_all_string_keys.map (segAll sec)
+    ++ Gen.tbl_from_container_unit_bool_keys.map (segBool sec)
+    ++ [segNetworks E sec, segMulti [s "Notify"] (notifyBlock svcType sec),
+        segBoolOn sec "NoNewPrivileges" [s "--security-opt=no-new-privileges"],
+        segBoolOn sec "SecurityLabelDisable" [s "--security-opt", s "label=disable"],
+        segBoolOn sec "SecurityLabelNested" [s "--security-opt", s "label=nested"],
+        segLast sec "SecurityLabelType" (fun o => match o with | some v => if v.isEmpty then [] else [s "--security-opt", s "label=type:" ++ v] | none => []),
+        segLast sec "SecurityLabelFileType" (fun o => match o with | some v => if v.isEmpty then [] else [s "--security-opt", s "label=filetype:" ++ v] | none => []),
+        segLast sec "SecurityLabelLevel" (fun o => match o with | some v => if v.isEmpty then [] else [s "--security-opt", s "label=level:" ++ v] | none => []),
+        segStrv sec "AddDevice" (fun l => l.flatMap fun d =>
+          match d with
+          | '-' :: d' =>
+            let p := match splitOnce ':' d' with | some (a, _) => a | none => d'
+            if E.pathExists p then [s "--device", d'] else []
+          | _ => [s "--device", d]),
+        segLast sec "SeccompProfile" (fun o => match o with | some v => if v.isEmpty then [] else [s "--security-opt", s "seccomp=" ++ v] | none => []),
+        segStrv sec "DropCapability" (fun l => l.flatMap fun c => [s "--cap-drop", lower c]),
+        segStrv sec "AddCapability" (fun l => l.flatMap fun c => [s "--cap-add", lower c]),
+        segStrv sec "Sysctl" (fun l => l.flatMap fun c => [s "--sysctl", c]),
+        segMulti [s "ReadOnly", s "VolatileTmp"] (fun u =>
+          (match lookupBool u sec (s "ReadOnly") with | some true => [s "--read-only"] | some false => [s "--read-only=false"] | none => [])
+          ++ (if (lookupBool u sec (s "VolatileTmp")).getD false && !((lookupBool u sec (s "ReadOnly")).getD false)
+              then [s "--tmpfs", s "/tmp:rw,size=512M,mode=1777"] else [])),
+        segMulti [s "User", s "Group"] (fun u => blockOf (handleUser u sec)),
+        segMaps sec true, segVolumes E path sec,
+        segMulti [s "AutoUpdate"] (fun u => containerAutoUpdate u sec),
+        segMulti [s "ExposeHostPort"] (fun u => blockOf (exposeArgs u sec))]
+    ++ Gen.tbl_handle_publish_ports_inline_lookup_and_add_all_strings.map (segAll sec)
+    ++ [segKeyVal sec "--env" "Environment", segKeyVal sec "--label" "Label", segKeyVal sec "--annotation" "Annotation",
+        segArgsWith sec "Mask" (fun l => l.flatMap fun m => [s "--security-opt", s "mask=" ++ m]),
+        segArgsWith sec "Unmask" (fun l => l.flatMap fun m => [s "--security-opt", s "unmask=" ++ m]),
+        segArgsWith sec "EnvironmentFile" (fun l => l.flatMap fun f => [s "--env-file", absFromUnit path f]),
+        segArgsWith sec "Secret" (fun l => l.flatMap fun x => [s "--secret", x]),
+        segMounts E path sec]
+    ++ Gen.tbl_handle_health_key_arg_map.map (segHealth sec)
+    ++ [segPod E sec, segArgs sec "PodmanArgs",
+        segMulti [s "Image", s "Rootfs"] (fun u =>
+          if !(imageNameOf E u sec).isEmpty then [imageNameOf E u sec] else [s "--rootfs", (lookup u sec (s "Rootfs")).getD []]),
+        segMulti [s "Exec"] (execBlock sec)]
+
+end Cv
+
+namespace Cv
+open MM
+
+def AllLocal (sec : Str) (l : List Seg) : Prop := ∀ g ∈ l, g.Local sec
+theorem allLocal_nil (sec : Str) : AllLocal sec [] := by intro g h; simp at h
+theorem allLocal_cons {sec : Str} {g : Seg} {l : List Seg} (h : g.Local sec) (t : AllLocal sec l) : AllLocal sec (g :: l) := by
+  intro x hx; rcases List.mem_cons.mp hx with rfl | hx; exact h; exact t x hx
+theorem allLocal_append {sec : Str} {a b : List Seg} (ha : AllLocal sec a) (hb : AllLocal sec b) : AllLocal sec (a ++ b) := by
+  intro x hx; rcases List.mem_append.mp hx with hx | hx; exact ha x hx; exact hb x hx
+theorem allLocal_map {sec : Str} (f : Str × Str → Seg) (hf : ∀ r, (f r).Local sec) (rows : List (Str × Str)) : AllLocal sec (rows.map f) := by
+  intro x hx; obtain ⟨r, _, rfl⟩ := List.mem_map.mp hx; exact hf r
+
+theorem segMulti_local (sec : Str) (keys : List Str) (f : SUnit → List Str)
+    (h : ∀ u u' : SUnit, (∀ k ∈ keys, assignments u sec k = assignments u' sec k) → f u = f u') : (segMulti keys f).Local sec := h
+
+theorem containerSegs_local (E : Env) (path : Str) (svcType : Option Str) : AllLocal (s "Container") (containerSegs E path svcType) := by
+  unfold containerSegs
+  have m1 : (segMulti [s "ContainerName"] (fun u => [s "--name", containerName (fileName path) u])).Local (s "Container") :=
+    segMulti_local _ _ _ (fun u u' h => by simp only [containerName]; rw [lookup_congr (h _ (by simp))])
+  have m2 : (segMulti [s "LogDriver"] (fun u => logDriver u (s "Container"))).Local (s "Container") :=
+    segMulti_local _ _ _ (fun u u' h => by simp only [logDriver]; rw [lookup_congr (h _ (by simp))])
+  have m3 : (segMulti [s "LogOpt"] (fun u => logOpt u (s "Container"))).Local (s "Container") :=
+    segMulti_local _ _ _ (fun u u' h => by simp only [logOpt]; rw [lookupAllStrv_congr (h _ (by simp))])
+  have m4 : (segMulti [s "Notify"] (notifyBlock svcType (s "Container"))).Local (s "Container") :=
+    segMulti_local _ _ _ (fun u u' h => by
+      simp only [notifyBlock, sdnotifyArg]; rw [lookup_congr (h _ (by simp)), lookupBool_congr (h _ (by simp))])
+  have m5 : (segMulti [s "ReadOnly", s "VolatileTmp"] (fun u =>
+          (match lookupBool u (s "Container") (s "ReadOnly") with | some true => [s "--read-only"] | some false => [s "--read-only=false"] | none => [])
+          ++ (if (lookupBool u (s "Container") (s "VolatileTmp")).getD false && !((lookupBool u (s "Container") (s "ReadOnly")).getD false)
+              then [s "--tmpfs", s "/tmp:rw,size=512M,mode=1777"] else []))).Local (s "Container") :=
+    segMulti_local _ _ _ (fun u u' h => by
+      rw [lookupBool_congr (h (s "ReadOnly") (by simp)), lookupBool_congr (h (s "VolatileTmp") (by simp))])
+  have m6 : (segMulti [s "User", s "Group"] (fun u => blockOf (handleUser u (s "Container")))).Local (s "Container") :=
+    segMulti_local _ _ _ (fun u u' h => by
+      simp only [handleUser]; rw [lookup_congr (h (s "User") (by simp)), lookup_congr (h (s "Group") (by simp))])
+  have m7 : (segMulti [s "AutoUpdate"] (fun u => containerAutoUpdate u (s "Container"))).Local (s "Container") :=
+    segMulti_local _ _ _ (fun u u' h => by simp only [containerAutoUpdate]; rw [lookup_congr (h _ (by simp))])
+  have m8 : (segMulti [s "ExposeHostPort"] (fun u => blockOf (exposeArgs u (s "Container")))).Local (s "Container") :=
+    segMulti_local _ _ _ (fun u u' h => by simp only [exposeArgs]; rw [lookupAll_congr (h _ (by simp))])
+  have m9 : (segMulti [s "Image", s "Rootfs"] (fun u =>
+          if !(imageNameOf E u (s "Container")).isEmpty then [imageNameOf E u (s "Container")]
+          else [s "--rootfs", (lookup u (s "Container") (s "Rootfs")).getD []])).Local (s "Container") :=
+    segMulti_local _ _ _ (fun u u' h => by
+      have e1 : imageNameOf E u (s "Container") = imageNameOf E u' (s "Container") := by
+        unfold imageNameOf; rw [lookup_congr (h (s "Image") (by simp))]
+      have e2 := lookup_congr (h (s "Rootfs") (by simp))
+      simp only [e1, e2])
+  have m10 : (segMulti [s "Exec"] (execBlock (s "Container"))).Local (s "Container") :=
+    segMulti_local _ _ _ (fun u u' h => by simp only [execBlock]; rw [lookupLastValue_congr (h _ (by simp))])
+  have nil := allLocal_nil (s "Container")
+  refine allLocal_append (allLocal_append (allLocal_append (allLocal_append (allLocal_append (allLocal_append (allLocal_append
+    (allLocal_append (allLocal_append (allLocal_append ?c ?r1) ?B) ?r2) ?r3) ?r4) ?C) ?r5) ?D) ?r6) ?E
+  case c => exact allLocal_cons (segConst_local _ _) nil
+  case r1 => exact allLocal_map _ (segAll_local _) _
+  case r2 => exact allLocal_map _ (segString_local _) _
+  case r3 => exact allLocal_map _ (segAll_local _) _
+  case r4 => exact allLocal_map _ (segBool_local _) _
+  case r5 => exact allLocal_map _ (segAll_local _) _
+  case r6 => exact allLocal_map _ (segHealth_local _) _
+  case B =>
+    exact allLocal_cons (segArgs_local _ _) (allLocal_cons (segConst_local _ _) (allLocal_cons m1 (allLocal_cons (segConst_local _ _)
+      (allLocal_cons m2 (allLocal_cons m3 (allLocal_cons (segLast_local _ _ _) nil))))))
+  case C =>
+    exact allLocal_cons (segNetworks_local _ _) (allLocal_cons m4 (allLocal_cons (segBoolOn_local _ _ _) (allLocal_cons (segBoolOn_local _ _ _)
+      (allLocal_cons (segBoolOn_local _ _ _) (allLocal_cons (segLast_local _ _ _) (allLocal_cons (segLast_local _ _ _)
+      (allLocal_cons (segLast_local _ _ _) (allLocal_cons (segStrv_local _ _ _) (allLocal_cons (segLast_local _ _ _)
+      (allLocal_cons (segStrv_local _ _ _) (allLocal_cons (segStrv_local _ _ _) (allLocal_cons (segStrv_local _ _ _)
+      (allLocal_cons m5 (allLocal_cons m6 (allLocal_cons (segMaps_local _ _) (allLocal_cons (segVolumes_local _ _ _)
+      (allLocal_cons m7 (allLocal_cons m8 nil))))))))))))))))))
+  case D =>
+    exact allLocal_cons (segKeyVal_local _ _ _) (allLocal_cons (segKeyVal_local _ _ _) (allLocal_cons (segKeyVal_local _ _ _)
+      (allLocal_cons (segArgsWith_local _ _ _) (allLocal_cons (segArgsWith_local _ _ _) (allLocal_cons (segArgsWith_local _ _ _)
+      (allLocal_cons (segArgsWith_local _ _ _) (allLocal_cons (segMounts_local _ _ _) nil)))))))
+  case E =>
+    exact allLocal_cons (segPod_local _ _) (allLocal_cons (segArgs_local _ _) (allLocal_cons m9 (allLocal_cons m10 nil)))
+
+end Cv
+
+namespace Cv
+open MM
+
+theorem typeAndNotify_block (u : SUnit) (sec : Str) (cmd : List Str) (svc : SUnit) (r : List Str × SUnit)
+    (h : typeAndNotify u sec cmd svc = .ok r) : r.1 = cmd ++ notifyBlock (lookup u (s "Service") (s "Type")) sec u := by
+  unfold typeAndNotify at h
+  unfold notifyBlock
+  simp only at h
+  cases ht : lookup u (s "Service") (s "Type") with
+  | none => rw [ht] at h; simp only [Except.ok.injEq] at h; rw [← h]
+  | some t =>
+    rw [ht] at h
+    simp only at h ⊢
+    split at h
+    · rename_i h1; simp only [Except.ok.injEq] at h; rw [← h]; simp [h1]
+    · rename_i h1
+      split at h
+      · simp only [Except.ok.injEq] at h; rw [← h]; simp [h1]
+      · simp at h
+
+theorem image_name (E : Env) (u : SUnit) (sec : Str) (svc : SUnit) (x : Str × SUnit)
+    (h : (if !((lookup u sec (s "Image")).getD []).isEmpty then handleImageSource E ((lookup u sec (s "Image")).getD []) svc
+          else (pure ((lookup u sec (s "Image")).getD [], svc) : R (Str × SUnit))) = .ok x) : x.1 = imageNameOf E u sec := by
+  unfold imageNameOf
+  simp only
+  by_cases he : ((lookup u sec (s "Image")).getD []).isEmpty = true
+  · simp only [he, Bool.not_true, Bool.false_eq_true, if_false, if_true] at h ⊢
+    simp only [pure, Except.pure, Except.ok.injEq] at h
+    rw [← h]
+  · simp only [he, Bool.not_false, if_true, if_false] at h ⊢
+    have := handleImageSource_fst E ((lookup u sec (s "Image")).getD []) svc
+    rw [h] at this
+    simp only [fstR] at this
+    rw [← this]
+    rfl
+
+end Cv
+
+namespace Cv
+open MM
+
+/-- the command of a container as the concatenation of the blocks of its segments -/
+theorem containerCmd_segs (E : Env) (path : Str) (u : SUnit) (svcType : Option Str) :
+    cmdOf (containerSegs E path svcType) u =
+      containerHead E path u (s "Container") ++ blockOf (networkArgs E u (s "Container")) ++ notifyBlock svcType (s "Container") u
+        ++ containerSecurity E u (s "Container") ++ blockOf (handleUser u (s "Container")) ++ blockOf (handleUserMappings u (s "Container") true)
+        ++ blockOf (volumeArgs E path u (s "Container")) ++ containerAutoUpdate u (s "Container") ++ blockOf (exposeArgs u (s "Container"))
+        ++ containerMid path u (s "Container") ++ blockOf (mountArgs E path u (s "Container")) ++ healthArgs u (s "Container")
+        ++ blockOf (podArgsOf E u (s "Container")) ++ podmanArgs u (s "Container")
+        ++ containerTail u (s "Container") (imageNameOf E u (s "Container")) := by
+  unfold containerSegs
+  simp only [cmdOf_append, cmdOf_string, cmdOf_bool, cmdOf_all, cmdOf_health]
+  simp [cmdOf, containerHead, containerSecurity, containerMid, containerTail, baseCmd, moduleArgs, addAllStrings0, addAllStrings, podmanArgs,
+    publishPorts, segConst, segArgs, segMulti, segMaps, segLast, segStrv, segArgsWith, segKeyVal, segBoolOn, segNetworks, segVolumes, segMounts,
+    segPod, execBlock]
+  constructor <;> rfl
+
+end Cv
+
+namespace Cv
+open MM
+
+/-- a `.container` unit that converts carries, as ExecStart, the rendering of the concatenation of its segments' blocks; the
+    segments are those for the unit's own `[Service] Type=` (a oneshot service has no `--sdnotify … -d`) -/
+theorem fromContainer_segs (E : Env) (path : Str) (u svc : SUnit) (link : Option (Str × Str))
+    (h : fromContainer E path u = some (.ok (svc, link))) :
+    HasExec svc "ExecStart" (cmdOf (containerSegs E path (lookup u (s "Service") (s "Type"))) u) := by
+  rw [containerCmd_segs]
+  unfold fromContainer at h
+  simp only at h
+  split at h
+  · simp at h
+  · simp only [Option.some.injEq, bind_ok] at h
+    obtain ⟨self, _, _, _, _, _, h⟩ := h
+    split at h
+    · exact absurd h (throw_bind_ne_ok _ _ _)
+    · split at h
+      · exact absurd h (throw_bind_ne_ok _ _ _)
+      · simp only [bind_ok] at h
+        obtain ⟨x1, h1, s2, h2, s3, h3, s4, h4, x5, h5, x6, h6, usr, husr, maps, hmaps, x7, h7, ports, hports, x8, h8, x9, h9, s10, h10, hfin⟩ := h
+        simp only [pure, Except.pure, Except.ok.injEq, Prod.mk.injEq] at hfin
+        obtain ⟨rfl, _⟩ := hfin
+        have hx := HasExec.of_addRawExec h10
+        rw [typeAndNotify_block _ _ _ _ _ h6, image_name E u (s "Container") _ x1 h1] at hx
+        rw [blockOf_ok (handleNetworks_args _ _ _ _ _ h5), blockOf_ok husr, blockOf_ok hmaps, blockOf_ok (handleVolumes_args _ _ _ _ _ _ h7),
+          blockOf_ok (mounts_args _ _ _ _ _ _ h8), blockOf_ok (handlePod_args _ _ _ _ _ _ h9)]
+        have hp : blockOf (exposeArgs u (s "Container")) = ports := blockOf_ok hports
+        rw [hp]
+        simpa only [List.append_assoc] using hx
+
+end Cv
